@@ -54,8 +54,16 @@ Definition has_frames (d : Ctc.ctc) : bool := match Ctc.d_frames d with [] => fa
 
 (* zarr.open_array(segmentation_store, shape=..., mode="w" if overwrite else "w-") in the first loop iteration, then one chunk per
    frame.  Outside the geff directory only its refusal matters here (Ctc.v).  Inside it, the array (and the directories on the way)
-   appear in the target: set_item creates the root when there is none, missing parents, and replaces an existing member (mode "w");
-   with mode "w-" an existing member is refused.  `vol` is the stacked label frames (pixel content: input of the model). *)
+   appear in the target -- WITHOUT group metadata for the geff directory when it did not exist (no zarr.open_group is involved):
+   an existing member is replaced (mode "w") or refused (mode "w-").  One recorded state: the complete volume (the states with only
+   some of the frames copied are below the model).  `vol` is the stacked label frames (pixel content: input of the model). *)
+Definition seg_put (rel : list string) (vol : arr) : M unit :=
+  do r <- get_root;
+  match put_path (match r with Some g => g | None => empty_group end) rel (ZA vol) with
+  | Some g' => set_root (Some g')
+  | None => fail OtherExn
+  end.
+
 Definition seg_export (d : Ctc.ctc) (vol : arr) : M unit :=
   if Ctc.seg_requested d && has_frames d then
     match seg_rel d with
@@ -66,7 +74,7 @@ Definition seg_export (d : Ctc.ctc) (vol : arr) : M unit :=
                        | Some g => match get_path g rel with Some _ => true | None => false end
                        | None => false
                        end in
-        if present && negb (Ctc.d_overwrite d) then fail FileExistsError else set_item rel vol
+        if present && negb (Ctc.d_overwrite d) then fail FileExistsError else seg_put rel vol
     end
   else ret tt.
 
